@@ -466,7 +466,37 @@ func genHistory(rng *rand.Rand, pools hPools, nops int, emphasis string, instanc
 	clock := int64(1_000_000_000_000)
 	ops := []hOp{{T: "clock", Ns: clock}}
 	var pastClocks []int64
+	// a hot set: two or three (infohash, peer) pairs per family that receive most of the operations,
+	// so that multi-step sequences on ONE membership (put, re-put in the other role, graduate, stop,
+	// expire, re-add ...) are frequent
+	type hotT struct {
+		ih, pid, ip string
+		port       int
+	}
+	mkHot := func(v6 bool) []hotT {
+		var hs []hotT
+		for i := 0; i < 2+rng.Intn(2); i++ {
+			h := hotT{ih: pools.ihs[rng.Intn(2)], pid: pools.pids[rng.Intn(len(pools.pids))], port: pools.ports[rng.Intn(len(pools.ports))]}
+			if v6 {
+				h.ip = pools.ip6[rng.Intn(len(pools.ip6))]
+			} else {
+				h.ip = pools.ip4[rng.Intn(len(pools.ip4))]
+			}
+			hs = append(hs, h)
+		}
+		return hs
+	}
+	hot4, hot6 := mkHot(false), mkHot(true)
+	hotP := rng.Intn(4) * 25 // 0, 25, 50 or 75 percent of the operations go to the hot set
 	pick := func(v6 bool) hOp {
+		if rng.Intn(100) < hotP {
+			hs := hot4
+			if v6 {
+				hs = hot6
+			}
+			h := hs[rng.Intn(len(hs))]
+			return hOp{IH: h.ih, V6: v6, PID: h.pid, IP: h.ip, Port: h.port, Inst: rng.Intn(instances)}
+		}
 		op := hOp{IH: pools.ihs[rng.Intn(len(pools.ihs))], V6: v6, PID: pools.pids[rng.Intn(len(pools.pids))], Port: pools.ports[rng.Intn(len(pools.ports))], Inst: rng.Intn(instances)}
 		if emphasis == "C03" || rng.Intn(3) == 0 { // same infohash in both families
 			op.IH = pools.ihs[0]
